@@ -74,18 +74,18 @@ CHECKS = {
         design="5 C09"),
     "C10": dict(
         technique="Coq proofs over executable models of the four grouping strategies (internal/analyzer/*_grouping.go) plus a computable contract checker proved equivalent to the contract and run on the implementation's output; constants regenerated from Go source; differential correspondence (vm_compute) against the tagged Go driver (op group) and the CLI JSON report",
-        text="Theorems (Props/C10.v, no axioms): for every pair list, threshold > 0, k and map order the model's groups satisfy the selected mode's contract (>= 2 members, disjoint, connected inside the group through pairs >= t; connected = exactly the components of G_t with >= 2 members; complete = cliques; k-core = >= k neighbours inside the group; star = a medoid >= t with every other member); check_contract <-> contract; bounded: k-core groups = components of the k-core on all 4-fragment graphs and all map orders. Every run: real GroupClones on all weighted graphs on <= 4 fragments (5-point threshold lattice), sampled 5-fragment graphs, structured and random graphs to 40 fragments, decided by the proved checker, implementation compared with the model as sets of sets; clone.clone_groups[] of the CLI report checked per grouping_mode.",
-        note="Hand-written models (union-find as quick-find, almostEqual as exact equality on dyadic similarities, one list for all map iteration orders); group ids/order/Similarity/CloneType not modelled. Assumes t > 0 and no self pairs. k-core exactness and fuel sufficiency only bounded. C10-F27 fixed (config grouping settings were ignored), C10-F28 open (report filters pairs after grouping).",
+        text="Theorems (Props/C10.v, no axioms): for every pair list, threshold > 0, k and map order the model's groups satisfy the selected mode's contract (>= 2 members, disjoint, connected inside the group through pairs >= t; connected = exactly the components of G_t with >= 2 members; complete = cliques; k-core = >= k neighbours inside the group; star = a medoid >= t with every other member); check_contract <-> contract; UNBOUNDED exactness: C10_kcore_exact (every pair list without self pairs, threshold, k and map order: no fuel exhaustion and the groups are exactly the components with >= 2 members of the unique maximal k-core, C10_kcore_spec_sound), C10_connected_spec (connected model = component function on every input); the self-pair hypothesis cannot be dropped (C10_kcore_selfpair_refuted); the two 4-fragment vm_compute theorems are kept as regression instances. Every run: real GroupClones on all weighted graphs on <= 4 fragments (5-point threshold lattice), sampled 5-fragment graphs, structured and random graphs to 40 fragments, decided by the proved checker, implementation compared with the model as sets of sets; clone.clone_groups[] of the CLI report checked per grouping_mode.",
+        note="Hand-written models (union-find as quick-find, almostEqual as exact equality on dyadic similarities, one list for all map iteration orders); group ids/order/Similarity/CloneType not modelled. Assumes t > 0 and no self pairs (the detector only compares fragment i with j > i). C10-F27 fixed (config grouping settings were ignored), C10-F28 open (report filters pairs after grouping).",
         design="5 C10"),
     "C11": dict(
-        technique="Coq proof: reachability-closure specification of non-trivial SCCs with proved characterisation; literal Gallina model of circular_detector.go (Tarjan) and AddModule/AddDependency; proved certificate checker run on the implementation's outputs; exhaustive vm_compute equivalence on all digraphs <=4 modules; constants/decision expressions regenerated from Go source; differential correspondence against the tagged driver and the CLI",
-        text="Theorems (Props/C11.v, no axioms): closure decides reachability; scc_spec = maximal mutually-reachable sets with >=2 members, pairwise disjoint, each once; same-cycle <=> mutual reachability; check_sccs accepts only the spec (all graphs, all outputs); Tarjan model = spec for every digraph on <=4 modules x 6 iteration orders (bounded); for all graphs the model's components have >=2 modules and are pairwise disjoint, count = #components, modules-in-cycles = sum of sizes, severity = documented table (partial). Every run: all digraphs <=4 modules, sampled (thorough: all 2^20) 5-module digraphs, random graphs to 60 modules and generated Python projects are run through the real detector/CLI and compared with the spec, the proved checker and the model.",
-        note="Full Tarjan correctness for >4 modules and fuel sufficiency are not proved (bounded + partial + certificate instead). Severity spec includes the documented fan-in>10 => critical rule. Order of the cycle list is not compared. Hand-written model; correspondence is sampled beyond 5 modules.",
+        technique="Coq proof: reachability-closure specification of non-trivial SCCs with proved characterisation; literal Gallina model of circular_detector.go (Tarjan) and AddModule/AddDependency; unbounded proof that the Tarjan model equals the specification for every well-formed graph and every iteration order (invariant proof, fuel sufficiency included); proved certificate checker (sound and complete) run on the implementation's outputs; constants/decision expressions regenerated from Go source; differential correspondence against the tagged driver and the CLI",
+        text="Theorems (Props/C11.v, no axioms): closure decides reachability; scc_spec = maximal mutually-reachable sets with >=2 members, pairwise disjoint, each once; same-cycle <=> mutual reachability; check_sccs accepts only the spec (all graphs, all outputs); C11_tarjan_exact: for EVERY graph and every iteration order of nodes and dependencies (wf g mg, decidable, satisfied by build_graph: C11_build_graph_wf) the Tarjan model never runs out of its |modules|+1 fuel and its components are, up to order, exactly scc_spec (C11_tarjan_terminates, _components_strongly_connected, _complete, _checked, C11_detect_exact for counts/sizes/has-cycles); severity = documented table; the <=4-module vm_compute theorem is kept as a regression instance. Every run: all digraphs <=4 modules, sampled (thorough: all 2^20) 5-module digraphs, random graphs to 60 modules and generated Python projects are run through the real detector/CLI and compared with the spec, the proved checker and the model.",
+        note="Severity spec includes the documented fan-in>10 => critical rule. Order of the cycle list is not compared. Hand-written model; correspondence is sampled beyond 5 modules.",
         design="5 C11"),
     "C12": dict(
-        technique="Coq model of ModuleAnalyzer / ReExportResolver / AddDependency / coupling metrics / calculateMaxDepth against a CPython import-resolution spec (Deps/PyImport.v); metric theorems for all inputs; import-graph agreement refuted by 4 witnesses and proved on a bounded domain of 19 068 projects under decidable wf predicates; spec tied to python3 by executing every generated statement; implementation tied by hook and CLI JSON",
-        text="Props/C12.v (no axioms): fan_in = in_degree, fan_out = out_degree, instability = Ce/(Ca+Ce), distance = |A+I-1| in [0,1], max depth = longest chain on acyclic graphs, resolution of a file independent of other files; C12_edges_bounded; C12_edges_refuted_* (F31-F34). Each run: ~330 generated projects (positions x guards, import-form catalogue x importer on same-named modules, random layouts, chains/cycles): pyscn DependencyMatrix/ModuleMetrics/MaxDepth vs edges_py and vs the model, two file orders, metrics on the implementation's own graph, ~5 000 statements cross-checked against python3, 9 CLI JSON reports.",
-        note="Full edge equality is false on the tree (open C12-F31..F34, matched only when impl = model); general edge theorem not proved (bounded only); F5, F17, F29, F30 repaired by fix: commits; assumes a root marker file, __init__.py in every package, imported names exist, no wildcard imports; floats compared exactly (instability) or within 1e-12 (distance).",
+        technique="Coq model of ModuleAnalyzer / ReExportResolver / AddDependency / coupling metrics / calculateMaxDepth against a CPython import-resolution spec (Deps/PyImport.v); metric theorems for all inputs; import-graph agreement refuted by 4 witnesses (recorded deviations) and PROVED for every project outside them (C12_edges_wf: forall pr, wf_project pr = true -> model edges = CPython-spec edges; decidable wf predicates), bounded domain of 19 068 projects kept as regression; spec tied to python3 by executing every generated statement; implementation tied by hook and CLI JSON",
+        text="Props/C12.v (no axioms): fan_in = in_degree, fan_out = out_degree, instability = Ce/(Ca+Ce), distance = |A+I-1| in [0,1], max depth = longest chain on acyclic graphs, resolution of a file independent of other files; C12_edges_wf and C12_edges_wf_own (unbounded, all projects satisfying wf_project / wf_mod_own_strong), per-form lemmas C12_relative_import_agrees (no hypothesis), C12_absolute_import_agrees, C12_reexport_agrees, C12_statement_agrees; C12_edges_bounded; C12_edges_refuted_* (F31-F34); C12_wf_mod_own_insufficient. Each run: ~330 generated projects (positions x guards, import-form catalogue x importer on same-named modules, random layouts, chains/cycles): pyscn DependencyMatrix/ModuleMetrics/MaxDepth vs edges_py and vs the model, two file orders, metrics on the implementation's own graph, ~5 000 statements cross-checked against python3, 9 CLI JSON reports.",
+        note="Full edge equality is false on the tree (open C12-F31..F34, matched only when impl = model); F5, F17, F29, F30 repaired by fix: commits; assumes a root marker file, __init__.py in every package, imported names exist, no wildcard imports; floats compared exactly (instability) or within 1e-12 (distance).",
         design="5 C12"),
     "C13": dict(
         technique="Coq proof over a class-level syntax (84 positions) that the CBO model (walk over the parser.Node fields regenerated from cbo.go) equals the spec set on all positions, set-semantics laws (idempotence, permutation, additivity), risk table; refutations for the two open input classes; position x import-form matrix and metamorphic runs against the tagged driver and the CLI",
